@@ -88,6 +88,55 @@ def rule_b(ctx):
                             t["sp"], "init must observe the uninitialised state (CAS from null)")
 
 
+        # the channel that was just published stays: assuming the installing CAS never fails, nothing is freed after it (only the loser of
+        # the race — the box that was *not* installed — is disposed of)
+        from .. import inline
+        from ..conds import switch_edges
+        n = inline.cached(F, it, keep=lambda c: False, tag="c12b-full", hof=True, thread=True,
+                          inlinable=lambda c: inline.default_inlinable(F, c, True) or (c is not None and c.body is not None and bool(inline.SHAPE_PRED_RE.match(c.name))))
+        for bb, t in n.calls():
+            if n.blocks[bb].get("dead") or not re.match(r"^core::sync::atomic::Atomic::<\*mut T>::compare_exchange(_weak)?$", t.get("def") or ""):
+                continue
+            cut = set(); seen_test = False
+
+            def ev(e, dval):
+                """value of a test expression when the CAS result's discriminant is dval (0 = Ok, 1 = Err); None if it depends on more"""
+                e = deep_strip(e)
+                if e[0] == "discr":
+                    x = deep_strip(e[1])
+                    return dval if (x[0] == "call" and x[1] == bb) else None
+                if e[0] == "const":
+                    return fold(e)
+                if e[0] == "unop" and e[1] == "Not":
+                    v = ev(e[2], dval)
+                    return None if v is None else (1 - v if v in (0, 1) else None)
+                if e[0] == "binop" and e[1] in ("Eq", "Ne"):
+                    a_, b_ = ev(e[2], dval), ev(e[3], dval)
+                    if a_ is None or b_ is None:
+                        return None
+                    return int((a_ == b_) == (e[1] == "Eq"))
+                return None
+            for (b2, tgt, lab, exprs, t2) in switch_edges(n):
+                for e in exprs:
+                    if not mentions(deep_strip(e), lambda x: x[0] == "call" and x[1] == bb):
+                        continue
+                    v_ok, v_err = ev(e, 0), ev(e, 1)
+                    if v_ok is None or v_err is None or v_ok == v_err:
+                        continue
+                    seen_test = True
+                    vals = [v for v, _ in t2["vals"]]
+                    takes = (lambda v: (int(lab[3:]) == v) if lab.startswith("sw:") else (v not in vals))
+                    if takes(v_err) and not takes(v_ok):
+                        cut.add((b2, tgt))
+            if not seen_test:
+                continue
+            n2 = inline.assuming(F, n, cut)
+            after = cfg.reachable(n2, bb, unwind=False) if not n2.blocks[bb].get("dead") else set()
+            frees = [n2.term(b)["sp"] for b, t3 in n2.calls() if b in after and b != bb and not n2.blocks[b].get("dead") and (t3.get("def") or "") == "alloc::boxed::Box::<T>::from_raw"]
+            ctx.check(not frees, rid, "init-keeps-published:%s" % keyname(it.name), "after a successful install of the slot pointer nothing is freed (the published channel stays)",
+                      t["sp"], {"frees_on_the_success_path": frees})
+
+
 _FX = [None]
 
 
